@@ -306,7 +306,7 @@ class Lattice3D:
         ValueError
             If the value is outside the specified range.
         """
-        if value < values[0] or value > values[-1]:
+        if not (values[0] <= value <= values[-1]):
             raise ValueError("Value is outside the specified range.")
 
         index = np.searchsorted(values, value, side="right")
@@ -340,7 +340,7 @@ class Lattice3D:
         ValueError
             If the value is outside the specified range.
         """
-        if value < values[0] or value > values[-1]:
+        if not (values[0] <= value <= values[-1]):
             raise ValueError("Value is outside the specified range.")
 
         index = np.abs(value - np.array(values)).argmin()
